@@ -277,9 +277,28 @@ def gen_tree_case(rng):
 class C07(Property):
     id = "C07"
     title = "flatten() is compositional and names every leaf by its position"
-    proof_module = "Proofs.C07Overlap"
-    level_text = "Lean 4 theorems on the flatten model: `flatten_compositional` (multiset equality with the members' own outputs at every node), `flatten_level_order`, `joined_opaque`, `keys_are_paths` (key = separator-join of names, list members by position), `keys_unique_paths` (equal keys imply equal name paths under SepSafe), `keys_nodup_noArray` / `keys_nodup_firstOnly` + `keys_firstOnly_iff` (for every conforming state of a wf schema without SparseDict the keys are pairwise distinct once every Array/MultiValue is cut to its first member, and the cut loses no key: the only repeated keys are those of the 2nd, 3rd, ... member of an Array/MultiValue). Tied to /repo by correspondence on element states after random list-mutation histories (incl. extended slices); oracle recomputes keys from positions."
-    level_note = 'Trusted: Lean kernel + 3 standard axioms; model Flatland/Flat.lean (flatten part); element state and leaf texts are extracted from the real element; that only Array/MultiValue members share a name path is checked by the oracle, not proved.'
+    proof_module = "Proofs.C07TreeHist"
+    level_text = ("Lean 4 theorems on the flatten model: `flatten_compositional` (multiset equality with the members' own outputs at every node), "
+                  "`flatten_level_order`, `joined_opaque`, `keys_are_paths` (key = separator-join of names, list members by position), "
+                  "`keys_unique_paths` (equal keys imply equal name paths under SepSafe), `keys_nodup_noArray` / `keys_nodup_firstOnly` + "
+                  "`keys_firstOnly_iff` (for every conforming state of a wf schema without SparseDict the keys are pairwise distinct once every "
+                  "Array/MultiValue is cut to its first member, and the cut loses no key). "
+                  "'List members contribute their CURRENT index' is a theorem over the tree model (Flatland/Tree.lean: ListSlots with STORED names, "
+                  "every list operation with its renumbering): `flattenTree` builds each key from the stored slot names as Element.flatten/flattened_name do; "
+                  "`flattenTree_positional`: on every tree all of whose Lists name their slots by position it equals the positional specification "
+                  "(`specFlatten`, keys from positions) pair for pair; `flatten_positional_history` / `flatten_positional_after_every_step`: that invariant — hence the equality — "
+                  "holds after every step of every history of the modelled calls (append/extend/+=/insert/item and slice assignment and deletion/pop/remove/"
+                  "reverse/sort/*=/clear/set/set_default and every dict-protocol call, successful or raising, on any element of a tree of any depth) from any "
+                  "constructed tree; `flattenTree_eq_flat`: on such trees flattenTree IS the flat model's flatten of the abstracted tree, so compositionality, "
+                  "keys-are-paths and uniqueness transfer (`tree_keys_are_paths`, `tree_flatten_compositional`); `flattenTree_stale_differs`: one stale slot name "
+                  "refutes the unconditional statement. Tied to /repo twice: flat family (element states after random list-mutation histories, model recomputes "
+                  "flatten) and tree-history family (the same history runs on the real library and on the Lean tree model; flatten() is compared after the "
+                  "construction and after every call, with both the shape walk and the literal pointer-walking rendering); the oracle recomputes keys from positions.")
+    level_note = ('Trusted: Lean kernel + 3 standard axioms; models Flatland/Flat.lean (flatten part), Flatland/Tree.lean + Flatland/C07Tree.lean; in the flat '
+                  'family element state and leaf texts are extracted from the real element; that only Array/MultiValue members share a name path is checked by '
+                  'the oracle, not proved; the theorems are about the shape walk `flattenTree` — that the literal rendering `flattenCode` (seen-set of identities, '
+                  'flattened_name through stored parent pointers) equals it on trees with unique identities and shape-consistent parent pointers (C08\'s invariant) is '
+                  'checked on every compared step, not proved.')
     technique = 'Lean 4 proof (queue BFS = level order, permutation with per-child outputs); differential correspondence; Python oracle'
     theorems = [
         "Flatland.Flat.Proofs.flatten_compositional",
@@ -299,15 +318,29 @@ class C07(Property):
         "Flatland.Flat.Proofs.keys_firstOnly_iff",
         "Flatland.Flat.Proofs.keys_nodup_needs_sepSafe",     # KF-C07-a: the hypothesis SepSafe is needed
         "Flatland.Flat.Proofs.ov_not_sepSafe",
+        # 'list members contribute their CURRENT index' over the tree model (stored slot names)
+        "Flatland.C07Tree.Proofs.flattenTree_positional",
+        "Flatland.C07Tree.Proofs.flattenTree_eq_flat",
+        "Flatland.C07Tree.Proofs.specFlatten_eq_flat",
+        "Flatland.C07Tree.Proofs.tree_keys_are_paths",
+        "Flatland.C07Tree.Proofs.tree_flatten_compositional",
+        "Flatland.C07Tree.Proofs.flattenTree_stale_differs",
+        "Flatland.C07Tree.Proofs.C07_positional_unconditional_fails",
     ]
     trusted_base = [
         "scalar text (.u) and compound text are inputs of the flat model (env tables computed from the real classes in isolation; subjects of C04/C18)",
-        "element state is extracted from the real element after set() and list mutations; flatten is recomputed by the model",
+        "element state is extracted from the real element after set() and list mutations; flatten is recomputed by the model (flat family)",
+        "tree-history family: nothing is extracted — schema, construction route and calls go to the real library and to the Lean tree model alike (executor Flatland/TreeJson.lean, shared with C08/C09); histories the tree model does not cover (it answers 'unsupported') are oracle-only and tagged so",
     ]
-    assumptions = ["the uniqueness THEOREMS need SepSafe names and separators (keys_nodup_needs_sepSafe: refuted without it, KF-C07-a); the oracle checks uniqueness for every separator; Array members are scalars (library assertion)"]
+    assumptions = ["the uniqueness THEOREMS need SepSafe names and separators (keys_nodup_needs_sepSafe: refuted without it, KF-C07-a); the oracle checks uniqueness for every separator; Array members are scalars (library assertion)",
+                   "history theorems: Element arguments handed to a call are themselves deep-positional subtrees (`OpArgsDPS`; true of everything the construction routes and earlier calls produce)"]
     rule = ("random schemas (Dict/SparseDict/List/Array/MultiValue/JoinedString/DateYYYYMMDD/scalars, depth<=4, hostile names and "
             "separators) x mostly-valid native values x 0-4 list mutations (insert/append/pop/del/slices/reverse/sort); non-trivial = "
-            ">=3 pairs emitted and at least one container below the root; distinct = canonical case JSON")
+            ">=3 pairs emitted and at least one container below the root; distinct = canonical case JSON. "
+            "Tree-history family (as many cases again): schemas whose keys pass through List slots (List of Dict with a nested List/Array/MultiValue, List of List, "
+            "Dict of Lists, random trees of depth<=3) x 5 construction routes x 1-12 calls from the C08/C09 generators (all list-protocol and dict-protocol calls, "
+            "plain values / fresh Elements / detached Elements as arguments, 10% hostile) on any container of the tree x 8 separators; flatten() of the root is "
+            "compared with the Lean tree model after every call; non-trivial = at least two calls changed what flatten() returns")
     quick_n = 2500
     thorough_n = 60000
 
